@@ -1145,7 +1145,7 @@ Qed.
 (* ------------------------------------------------------------------ the invariant holds after every history *)
 Lemma Inv_step k ev w o : Inv k w -> Inv k (step_w k ev w o).
 Proof.
-  intro I. unfold step_w, step. destruct o as [m init|ms init|m|s sd|e t|m bn e a|e a].
+  intro I. unfold step_w, step. destruct o as [m init|ms init|m|s sd|e t|m bn e a|e a|].
   - destruct (add_model k w m init) as [r w'] eqn:E. simpl. eapply Inv_add_model; eassumption.
   - destruct (add_models k w ms init) as [r w'] eqn:E. simpl. eapply Inv_add_models; eassumption.
   - destruct (remove_model k w m) as [r w'] eqn:E. simpl. eapply Inv_remove_model; eassumption.
@@ -1157,6 +1157,9 @@ Proof.
   - destruct (dispatch_loop k ev (w_models w) w e a) as [[bs r] w'] eqn:E. simpl.
     destruct (dispatch_loop_multi _ _ _ _ _ _ _ _ _ E) as [M _].
     eapply Inv_multi; eassumption.
+  - simpl. unfold copy_world. destruct I as [I1 I2 I3 I4 I5].
+    destruct (k_locked k) eqn:El, (k_graph k) eqn:Eg; cbn; constructor; cbn; auto;
+      intro Hc; rewrite El in Hc; discriminate.
 Qed.
 
 Lemma Inv_run k ev hs : forall w, Inv k w -> Inv k (run k ev w hs).
@@ -1310,7 +1313,7 @@ Qed.
 
 Lemma step_untouched k ev w o m : ~ In m (w_models w) -> ~ mentions m o -> untouched m w (step_w k ev w o).
 Proof.
-  intros Hm Ho. unfold step_w, step. destruct o as [m' init|ms init|m'|s sd|e t|m' bn e a|e a]; simpl in Ho.
+  intros Hm Ho. unfold step_w, step. destruct o as [m' init|ms init|m'|s sd|e t|m' bn e a|e a|]; simpl in Ho.
   - destruct (add_model k w m' init) as [r w'] eqn:E. simpl. unfold add_model in E.
     destruct (add_core k w m' init) as [oe w1] eqn:Ec.
     destruct (add_core_untouched _ _ _ _ _ _ _ Ec Ho Hm) as (C1&C2&C3&C4&C5).
@@ -1365,6 +1368,7 @@ Proof.
   - destruct (dispatch_loop k ev (w_models w) w e a) as [[bs r] w'] eqn:E. simpl.
     destruct (dispatch_loop_multi _ _ _ _ _ _ _ _ _ E) as [M _].
     eapply multi_untouched; eauto.
+  - simpl. unfold copy_world, untouched. destruct (k_locked k), (k_graph k); cbn; splits; auto; intro H; contradiction.
 Qed.
 
 Lemma run_untouched k ev m hs : forall w,
@@ -1785,3 +1789,58 @@ Section RemoveList.
         apply removed_stays_removed. exact Hgone.
   Qed.
 End RemoveList.
+
+(* ------------------------------------------------------------------ a model's own initial state (hierarchical) *)
+Lemma own_add_keeps states dflt w a x f :
+  In (x, f) w -> In (x, f) (own_add states dflt w a).
+Proof.
+  intro H. unfold own_add. destruct (existsb (fun p => Nat.eqb (fst p) (fst a)) w); [exact H | apply in_or_app; left; exact H].
+Qed.
+
+Lemma own_add_keys states dflt w a x :
+  In x (map fst (own_add states dflt w a)) <-> In x (map fst w) \/ x = fst a.
+Proof.
+  unfold own_add. destruct (existsb (fun p => Nat.eqb (fst p) (fst a)) w) eqn:E.
+  - apply existsb_exists in E. destruct E as [[y g] [Hy He]]. simpl in He. apply Nat.eqb_eq in He. subst y.
+    split; [tauto|]. intros [H| ->]; [exact H|]. apply in_map_iff. exists (fst a, g). split; auto.
+  - rewrite map_app, in_app_iff. simpl. intuition.
+Qed.
+
+Lemma own_run_keeps states dflt adds : forall w x f, In (x, f) w -> In (x, f) (own_run states dflt adds w).
+Proof.
+  induction adds as [|a r IH]; intros w x f H; simpl; auto. apply IH. apply own_add_keeps. exact H.
+Qed.
+
+(* every model added with its own initial state (or None = the machine's) is in exactly the configuration of
+   that state — whatever was added before or is added after it, whatever the other models' states are *)
+Lemma own_initial_thm states dflt : forall adds1 m init adds2 w,
+  ~ In m (map fst (own_run states dflt adds1 w)) ->
+  In (m, own_config states (match init with Some p => p | None => dflt end))
+     (own_run states dflt (adds1 ++ (m, init) :: adds2) w).
+Proof.
+  intros adds1 m init adds2 w Hn. unfold own_run in *. rewrite fold_left_app. simpl.
+  apply own_run_keeps. unfold own_add at 1. simpl.
+  destruct (existsb (fun p => Nat.eqb (fst p) m) (fold_left (own_add states dflt) adds1 w)) eqn:E.
+  - exfalso. apply Hn. apply existsb_exists in E. destruct E as [[y g] [Hy He]]. simpl in He.
+    apply Nat.eqb_eq in He. subst y. apply in_map_iff. exists (m, g). split; auto.
+  - apply in_or_app. right. left. reflexivity.
+Qed.
+
+(* ... and the configurations stay a function of the model: no model is listed twice *)
+Lemma own_run_nodup states dflt : forall adds w, NoDup (map fst w) -> NoDup (map fst (own_run states dflt adds w)).
+Proof.
+  induction adds as [|a r IH]; intros w H; simpl; auto. apply IH.
+  unfold own_add. destruct (existsb (fun p => Nat.eqb (fst p) (fst a)) w) eqn:E; [exact H|].
+  rewrite map_app. simpl. apply NoDup_snoc; [exact H|].
+  intro Hc. apply in_map_iff in Hc. destruct Hc as [[y g] [He Hy]]. simpl in He. subst y.
+  assert (existsb (fun p => Nat.eqb (fst p) (fst a)) w = true); [|congruence].
+  apply existsb_exists. exists (fst a, g). split; [exact Hy | apply Nat.eqb_refl].
+Qed.
+
+Lemma copy_thm k ev w :
+  step k ev w OCopy = ([], inr None, copy_world k w) /\
+  w_models (copy_world k w) = w_models w /\ w_obj (copy_world k w) = w_obj w /\
+  w_queues (copy_world k w) = w_queues w /\ w_mc (copy_world k w) = w_mc w /\
+  (forall x, In x (w_ctx (copy_world k w)) -> In x (w_ctx w) \/ In x (w_models w)) /\
+  (forall x, In x (w_graphs (copy_world k w)) -> In x (w_graphs w) \/ In x (w_models w)).
+Proof. unfold step, copy_world. destruct (k_locked k), (k_graph k); cbn; splits; auto. Qed.
